@@ -537,3 +537,7 @@ def run(eng, rep):
     rule_delta_cap(eng, rep)
     rule_table_shape(eng, rep)
     rule_rhoend_single_source(eng, rep)
+    from .mirrorrule import rule_mirror
+    rule_mirror(eng, rep, 'C18-6.bound-test-of-the-rho-reduction-criterion-is-symmetric', ['controller.Controller.done_with_current_rho'])
+    from .c10 import rule_nruns
+    rule_nruns(eng, rep, rule="C18-7.run-counter-in-the-table-counts-every-restart")
